@@ -17,6 +17,19 @@ define_language! {
     }
 }
 
+// C20's interferer works in this language: the operators are WRITTEN like Arith's, but the arguments that are
+// payloads / children are others (whatever a parser learns about "call" here says nothing about Arith's "call")
+define_language! {
+    pub enum Shadow {
+        Call(AppliedId, AppliedId) = "call",
+        Add(Symbol, AppliedId) = "add",
+        Mul(AppliedId, Symbol) = "mul",
+        App(Symbol, Symbol) = "app",
+        Var(Slot) = "var",
+        Symbol(Symbol),
+    }
+}
+
 define_language! {
     pub enum ArrayLang {
         Lam(Slot, AppliedId) = "lam",
